@@ -103,6 +103,12 @@ let outcome id what (model : 'a result) (out : sx) : ('a * sx) option =
     | Panic -> count (what ^ "_panic"); None
     | TickErr -> count (what ^ "_tickerr"); None
 
+(* "repaired" (argument or C18_MODEL=repaired): replay burndown through the model of the candidate repair of
+   finding F8 (docs/C18-F8-candidate.patch) instead of the model of the code as it is *)
+let repaired =
+  (Array.length Sys.argv > 1 && Sys.argv.(1) = "repaired") ||
+  (match Sys.getenv_opt "C18_MODEL" with Some "repaired" -> true | _ -> false)
+
 let () =
   iter_cases (fun id c ->
     let an = atom (List.hd (args (field "an" c))) in
@@ -163,7 +169,7 @@ let () =
                   if canon_couples gc <> canon_couples mc then mismatch id "couples: merged result differs from the model")
          | "burndown" ->
              let r1 = burndown_of_sx r1s and r2 = burndown_of_sx r2s in
-             let m = bd_merge code_merge people merged r1 r2 in
+             let m = (if repaired then bd_merge_repaired else bd_merge) code_merge people merged r1 r2 in
              (match outcome id "burndown" m out with
               | None -> ()
               | Some (mb, o) ->
